@@ -138,6 +138,38 @@ def run_history(nc0: int, pend0: int, h: list, key, rng):
                 obs.append(('SimFailed',))
             else:
                 obs.append(('Other', f'{type(res).__name__}: {res}'[:200]))
+        elif kind == 'Send':
+            # OperationGroup.send() = autofill().sign().inject(); observed as the two model calls Autofill l n true; Inject g ok
+            l, n, okflag = c[1], c[2], c[3]
+            wb = wb and n > 0 and l not in dirty
+            was_dirty = l in dirty
+            node.metadata_for = lambda i, cc: {'operation_result': {'status': 'applied', 'consumed_milligas': '100000'}}
+            attempt.clear()
+            attempt['ok'] = okflag
+            expected = node.counters[pkh] + pending() + 1
+            g = build(l, n)
+            ok, res = lib.call(lambda: g.send(min_confirmations=0))
+            raw = attempt.get('raw')
+            if raw is None or ok != okflag:
+                obs.append(('Other', f'send: ok={ok} {res!r}'[:200]))
+                obs.append(('None',))
+                groups.append(None)
+                ginfo.append({'lineage': l, 'stamp': ninj, 'refilled': was_dirty, 'plain_fill_with_pending': False, 'filled_at': idx})
+                continue
+            parsed = parse_payload(raw)
+            ctrs = [x[1] for x in parsed]
+            good_shape = all(s == src21 for s, _ in parsed) and ctrs == list(range(ctrs[0], ctrs[0] + len(ctrs))) and len(ctrs) == n
+            obs.append(('Filled', ctrs[0], n) if good_shape else ('Other', f'send counters {ctrs}'))
+            obs.append(('Injected', ctrs[0], len(ctrs), okflag) if good_shape else ('Other', f'payload counters {ctrs}'))
+            groups.append(res if ok else None)
+            ginfo.append({'lineage': l, 'stamp': ninj, 'refilled': was_dirty, 'plain_fill_with_pending': False, 'filled_at': idx})
+            # inject() resets the lineage's cache first
+            if okflag:
+                if not (good_shape and ctrs[0] == expected):
+                    all_right = False
+                    fails.append({'call_index': idx, 'group': len(groups) - 1, 'carried': ctrs, 'expected_first': expected, **ginfo[-1], 'stale': False})
+                ninj += 1
+                add_pending(len(ctrs), str(idx))
         elif kind == 'Sign':
             g = c[1]
             if g >= len(groups):
@@ -151,6 +183,8 @@ def run_history(nc0: int, pend0: int, h: list, key, rng):
                 wb = False
                 obs.append(('Rejected',))
                 continue
+            if groups[g] is None:
+                raise lib.InternalError('history references the group of a refused send()')
             wb = wb and ginfo[g]['stamp'] == ninj
             attempt.clear()
             attempt['ok'] = okflag
@@ -183,6 +217,22 @@ def run_history(nc0: int, pend0: int, h: list, key, rng):
 
 
 # ---- Coq rendering ---------------------------------------------------------------------------------------------------
+def expand(h):
+    """model history: Send l n ok = Autofill l n true; Inject <new group id> ok"""
+    out, ngroups = [], 0
+    for c in h:
+        if c[0] == 'Send':
+            out += [('Autofill', c[1], c[2], True), ('Inject', ngroups, c[3])] if c[2] > 0 else [('Autofill', c[1], c[2], True)]
+            ngroups += 1 if c[2] > 0 else 0
+        else:
+            out.append(c)
+            if c[0] == 'Fill' and c[2] > 0:
+                ngroups += 1
+            if c[0] == 'Autofill' and c[2] > 0 and c[3]:
+                ngroups += 1
+    return out
+
+
 def coq_call(c) -> str:
     k = c[0]
     if k == 'Fill':
@@ -228,6 +278,16 @@ def gen_wellbehaved(rng, maxlen):
                 h.append(('Bake',))
                 pend = 0
             h.append(('Fill', l, n))
+        elif rng.random() < 0.3:   # the one-call path: send() = autofill().sign().inject()
+            ok = rng.random() < 0.8
+            h.append(('Send', l, n, ok))
+            ngroups += 1
+            if ok:
+                pend += n
+            if rng.random() < 0.3:
+                h.append(('Bake',))
+                pend = 0
+            continue
         else:
             simok = rng.random() < 0.85
             h.append(('Autofill', l, n, simok))
@@ -256,20 +316,30 @@ def gen_wellbehaved(rng, maxlen):
 
 
 def gen_arbitrary(rng, maxlen):
-    h, ngroups = [], 0
+    h, ngroups, usable = [], 0, []
     for _ in range(rng.randrange(1, maxlen + 1)):
         k = rng.random()
-        if k < 0.22:
+        if k < 0.12:
+            ok = rng.random() < 0.8
+            h.append(('Send', rng.randrange(3), rng.choice([1, 1, 2, 3]), ok))
+            if ok:
+                usable.append(ngroups)
+            ngroups += 1
+        elif k < 0.22:
             h.append(('Fill', rng.randrange(3), rng.choice([1, 1, 2, 3, 0])))
-            ngroups += 1 if h[-1][2] else 0
+            if h[-1][2]:
+                usable.append(ngroups)
+                ngroups += 1
         elif k < 0.5:
             ok = rng.random() < 0.8
             h.append(('Autofill', rng.randrange(3), rng.choice([1, 1, 2, 3, 0]), ok))
-            ngroups += 1 if (ok and h[-1][2]) else 0
-        elif k < 0.58:
-            h.append(('Sign', rng.randrange(ngroups + 1)))
-        elif k < 0.9 and ngroups:
-            h.append(('Inject', rng.choice([ngroups - 1, ngroups - 1, rng.randrange(ngroups)]), rng.random() < 0.8))
+            if ok and h[-1][2]:
+                usable.append(ngroups)
+                ngroups += 1
+        elif k < 0.58 and usable:
+            h.append(('Sign', rng.choice(usable)))
+        elif k < 0.9 and usable:
+            h.append(('Inject', rng.choice([usable[-1], usable[-1], rng.choice(usable)]), rng.random() < 0.8))
         else:
             h.append(('Bake',))
     return rng.choice([0, 0, 1, 2]), h
@@ -342,7 +412,7 @@ def run(ctx: lib.Ctx) -> None:
                  sample={'node_counter': nc0, 'pending': pend0, 'history': [list(c) for c in h], 'observed': [list(o) for o in obs]})
         counts['wb'] += wb
         counts['wb_with_injection'] += bool(wb and n_inj)
-        cases.append((f"({cN(nc0)}, {cN(pend0)}, {clist(coq_call(c) for c in h)})",
+        cases.append((f"({cN(nc0)}, {cN(pend0)}, {clist(coq_call(c) for c in expand(h))})",
                       f"({clist(coq_obs(o) for o in obs)}, {cbool(all_right)}, {cbool(wb)})"))
         meta.append((nc0, pend0, h, obs, all_right, wb, fails))
         others = [o for o in obs if o[0] == 'Other']
